@@ -16,7 +16,8 @@ class HGen:
         self.r = rng
         self.loopblocks = set()
         self.info = {"super": False, "supersuper": False, "self": False, "scoped": False, "scoped_reads_loop": False,
-                     "block_in_toplevel_if": False,
+                     "block_in_toplevel_if": False, "child_include": False, "child_callblock": False,
+                     "child_filter_with": False, "child_block_in_loop": False,
                      "required": False, "dynamic": False, "conditional": False, "nested": False,
                      "outside": False}
 
@@ -88,6 +89,28 @@ class HGen:
             if r.random() < 0.4:
                 body.append(T(f"[{tn}.tail{self.next()}]"))
                 self.info["outside"] = True
+            # other kinds of content outside blocks in a child template: none of it is rendered
+            k = r.random()
+            if k < 0.10:
+                templates["incx"] = [T("[INCX]")]
+                body.insert(r.randint(1, len(body)), ["include", C("incx"), None, False])
+                self.info["child_include"] = True
+            elif k < 0.18:
+                body.insert(1, ["macro", f"cm{lvl}", [], [T("[CM]"), ["out", ["call", N("caller"), [], []]]]])
+                body.insert(r.randint(2, len(body)), ["callblock", [], ["call", N(f"cm{lvl}"), [], []], [T(f"[{tn}.call]")]])
+                self.info["child_callblock"] = True
+            elif k < 0.26:
+                body.insert(r.randint(1, len(body)), ["filterblock", "upper", [], [T(f"[{tn}.filt]")]])
+                body.insert(r.randint(1, len(body)), ["with", [["wv", C(1)]], [T(f"[{tn}.with]"), ["out", N("wv")]]])
+                self.info["child_filter_with"] = True
+            elif k < 0.34:
+                fresh = [n for n in names if n not in ov]
+                if fresh:
+                    n = self.pick(fresh)
+                    bd = self.block_def(tn, n, scoped[n], defined[n] > 0, names, ov, lvl)
+                    body.insert(r.randint(1, len(body)), ["for", ["item"], N("items"), [T("<"), bd, T(">")], None, None, False])
+                    defined[n] += 1
+                    self.info["child_block_in_loop"] = True
             templates[tn] = body
         leaf = f"t{depth - 1}"
         return templates, leaf, data, (depth, tuple(bitmap))
